@@ -242,6 +242,54 @@ def w_cases(items):
     return n, out, counts
 
 
+LEX_RULES = [("int", "anyIntRule"), ("float", "anyFloatRule"), ("ew", "boundingCoordinateRule_EW"), ("ns", "boundingCoordinateRule_NS"),
+             ("nonneg", "anyNonNegativeFloatRule")]
+
+
+def w_lexical(idx):
+    """Lexical.tla: every short string over {-,+,0,1,8,9,.,e} through the int / float / ranged rules."""
+    from metapype.model.node import Node
+    from metapype.eml import rule
+    from metapype.eml.exceptions import MetapypeRuleError
+    out, n = [], 0
+    robj = {k: rule.Rule(r) for k, r in LEX_RULES if r in G["rules"]}
+    for i in idx:
+        L = G["L"][i]
+        text = "".join(L["s"])
+        for k, r in robj.items():
+            verdict = L[k]
+            node = Node("zzLexical", content=text)
+            ff = None
+            try:
+                r._validate_content(node, False, None) if False else r.validate_rule(node)
+            except Exception as e:  # noqa: BLE001
+                ff = e
+            errs = []
+            craised = None
+            try:
+                r.validate_rule(node, errs)
+            except Exception as e:  # noqa: BLE001
+                craised = e
+            n += 1
+            cerr = [e for e in errs if e[0].name.startswith("CONTENT")]
+            ffc = ff if (ff is None or not isinstance(ff, MetapypeRuleError) or "content" in str(ff) or "range" in str(ff) or "non-negative" in str(ff)) else None
+            bad = []
+            if craised is not None:
+                bad.append(("collecting-mode-raised", craised))
+            if ff is not None and not isinstance(ff, MetapypeRuleError):
+                bad.append(("failfast-non-rule-error", ff))
+            elif verdict == "ACCEPT" and (ffc is not None or cerr):
+                bad.append(("canonical-form-rejected", ffc))
+            elif verdict == "REJECT" and ((ffc is None) or (craised is None and not cerr)):
+                bad.append(("non-member-accepted", None))
+            for clause, exc in bad:
+                e = f":{type(exc).__name__}" if exc is not None else ""
+                out.append((f"lexical:{clause}{e}:{k}", f"{dict(LEX_RULES)[k]} content {text!r}: spec verdict {verdict}; fail-fast {ff!r}; collecting {craised!r} {[x[0].name for x in errs]}",
+                            {"kind": "lexical", "rule": dict(LEX_RULES)[k], "content": text, "verdict": verdict}))
+        Node.store.clear()
+    return n, out
+
+
 def run(rep, tier, seed):
     from harness.world import Node  # noqa: F401
     wd, rules, node_map, dfas = c01.prepare(rep, tier, pid=PID)
@@ -274,6 +322,23 @@ def run(rep, tier, seed):
             counts[k] += cn[k]
         for key, det, replay in outl:
             rep.violation(f"{PID}:{key}", det[:600], replay)
+    # lexical layer in TLA+: all short strings over a tiny alphabet
+    cfgl = os.path.join(wd, "Lexical.cfg")
+    open(cfgl, "w").write(f"SPECIFICATION Spec\nCONSTANT MaxLen = {5 if tier == 'quick' else 6}\nINVARIANT StrictWithinGenerous\nINVARIANT Log\n")
+    outl = os.path.join(wd, "lexical.out")
+    rl = run_tlc("Lexical", cfg=cfgl, stdout_path=outl, timeout=1800)
+    if rl.invariant_violated or not rl.ok:
+        raise MachineryError("SPEC ERROR: Lexical.tla strict grammar not within the generous one:\n" + rl.out[-1500:])
+    rep.add_tlc(rl, "Lexical.cfg (strict / generous grammars of int and float on all short strings)")
+    G["L"] = load_log_all(outl)["L"]
+    os.remove(outl)
+    nl = 0
+    for m, outl_ in parallel(w_lexical, range(len(G["L"]))):
+        nl += m
+        for key, det, replay in outl_:
+            rep.violation(f"{PID}:{key}", det[:500], replay)
+    rep.notes["lexical_strings"] = len(G["L"])
+    rep.notes["lexical_validations"] = nl
     rep.notes["strings_validated_both_modes"] = n
     rep.notes["verdicts"] = counts
     rep.notes["unknown_kind_combinations_not_judged"] = sorted({"+".join(c["kinds"]) for c in C if not c["known"]})
